@@ -40,6 +40,8 @@ ApplyVerdict(r) ==
   (* the two-step interface: rotate_result applied again and again to the SAME contraction output  *)
   (* (apply_grids called once) must give what apply_pdf gives, and must leave that output untouched *)
   ELSE IF r.lowlevel # "same" THEN "C43:rotate-result-on-the-same-raw-grids:" \o r.lowlevel
+  (* several inputs stacked on the replica axis: each replica of the output is the contraction of ITS input *)
+  ELSE IF r.replicas # "same" THEN "C43:stacked-replicas-differ-from-single-input-contraction"
   ELSE "ok"
 
 (* flavour reshape: T / U are given as used by the caller (<<>> = side untouched);  *)
